@@ -100,6 +100,9 @@ impl Block for ZeroCrossing {
             o.len()
         };
         for sample in input.iter() {
+            if opos == max_out {
+                break;
+            }
             n += 1;
             if self.counter == (self.last_cross + (self.clock / 2.0)) as u64 {
                 o.slice()[opos] = *sample;
@@ -108,9 +111,6 @@ impl Block for ZeroCrossing {
                 }
                 opos += 1;
                 self.last_cross += self.clock;
-                if opos == max_out {
-                    break;
-                }
             }
 
             let sign = *sample > 0.0;
